@@ -7,7 +7,8 @@ LEVEL = "model_checking"
 def run(ctx):
   return _shared.run_clauses(ctx, "C02.", lambda e: e['k'] == 'B',
                              "every successful call (bundles, undo, redo, Calculate) from InitNewDoc on: the specification's own document, advanced only by DocActions!Apply of the stored actions, must equal the engine's observed tables, rows and cells (C02.replay) and every stored action must be applicable at its position (C02.applicable)",
-                             corpora=_shared.BOTH)
+                             corpora=_shared.BOTH,
+                             design=("MC_DocActions", "MC_DocActions_quick.cfg" if ctx.quick else "MC_DocActions.cfg"))
 
 
 def replay(ctx, data):
